@@ -1945,9 +1945,25 @@ def exists_form(an, f):
                     isinstance(st.value, ast.Constant))]
     # leading `if p is None: p = default` re-bindings of a parameter are
     # part of the iterable's definition, not of the predicate
-    while body and isinstance(body[0], ast.If) and not body[0].orelse and \
-            all(isinstance(x, ast.Assign) for x in body[0].body):
+    # (likewise a local that only renames the parameter: `xs = p`, then the
+    # default for xs - what an inlined helper leaves behind)
+    alias = {}
+    while body and (
+            (isinstance(body[0], ast.If) and not body[0].orelse and
+             all(isinstance(x, ast.Assign) for x in body[0].body)) or
+            (isinstance(body[0], ast.Assign) and len(body[0].targets) == 1
+             and isinstance(body[0].targets[0], ast.Name) and
+             isinstance(body[0].value, ast.Name) and
+             body[0].value.id in f.params and len(body) > 1)):
+        if isinstance(body[0], ast.Assign):
+            alias[body[0].targets[0].id] = body[0].value.id
         body = body[1:]
+
+    _plain_src = globals()['src']
+
+    def src(e):                 # texts are given in terms of the parameter
+        t = _plain_src(e)
+        return alias.get(t, t)
     if len(body) == 1 and isinstance(body[0], ast.Return):
         e = body[0].value
         if isinstance(e, ast.Compare) and len(e.ops) == 1:
